@@ -48,7 +48,20 @@ func writeTree(dir string, files map[string]string) error {
 		if err := os.MkdirAll(filepath.Dir(full), 0o755); err != nil {
 			return err
 		}
-		if err := os.WriteFile(full, []byte(c), 0o644); err != nil {
+		// one file in four is committed with the executable bit (git mode 100755): as much a file as
+		// any other
+		mode := os.FileMode(0o644)
+		h := 0
+		for _, ch := range []byte(p) {
+			h = h*31 + int(ch)
+		}
+		if h%4 == 0 {
+			mode = 0o755
+		}
+		if err := os.WriteFile(full, []byte(c), mode); err != nil {
+			return err
+		}
+		if err := os.Chmod(full, mode); err != nil {
 			return err
 		}
 	}
